@@ -181,6 +181,18 @@ class ConstEval:
         vals = [self._ev(m, a, cls, env) for a in args]
         if all(isinstance(v, int) for v in vals):
           return range(*vals)
+      if fn in ("enumerate", "zip", "reversed") and args:
+        vals = [self._ev(m, a, cls, env) for a in args]
+        start = 0
+        for kw in e.keywords:
+          if kw.arg == "start":
+            start = self._ev(m, kw.value, cls, env)
+        if fn == "enumerate" and isinstance(vals[0], (list, tuple, str, range)) and len(vals) <= 2 and isinstance(vals[1] if len(vals) > 1 else start, int):
+          return list(enumerate(vals[0], vals[1] if len(vals) > 1 else start))
+        if fn == "zip" and all(isinstance(v, (list, tuple, str, range)) for v in vals):
+          return list(zip(*vals))
+        if fn == "reversed" and len(vals) == 1 and isinstance(vals[0], (list, tuple, str, range)):
+          return list(reversed(vals[0]))
       if fn == "ord" and len(args) == 1:
         v = self._ev(m, args[0], cls, env)
         if isinstance(v, str) and len(v) == 1:
